@@ -46,4 +46,85 @@ RangeBucket(D, f, lo, hi) == Consumptions(D, f, LAMBDA v : v >= lo /\ v < hi)
 TermBucket(D, f, t) == Consumptions(D, f, LAMBDA v : v = t)
 TermCount(D, f, t) == Len(TermBucket(D, f, t))
 SingleValued(D, f) == \A i \in DOMAIN D : Len(D[i][f]) <= 1
+
+\* ================= aggregation TREES (generated requests) ==============================
+(***************************************************************************)
+(* A request is a sequence of named aggregations [name, a]; an aggregation *)
+(* a is a record with a.k \in {"count","sum","min","max","avg","wavg",     *)
+(* "card","quant","terms","ranges","dranges"}; value sources are           *)
+(* [f |-> field, flt |-> filter name] (search.Field wrapped by             *)
+(* aggregations.FilterNumeric / FilterText / FilterDate when flt # "none");*)
+(* bucket aggregations carry a.sub, a sequence of named aggregations fed   *)
+(* on every consumption of the bucket.  The meaning is defined over a      *)
+(* sequence D of CONSUMPTIONS (the matched documents at the top, the       *)
+(* bucket's consumptions below), so nesting is plain recursion.            *)
+(***************************************************************************)
+Flt(name, v) ==
+  CASE name = "none" -> TRUE
+    [] name = "ge1" -> v >= 1
+    [] name = "ne0" -> v # 0
+    [] name = "lt2" -> v < 2
+    [] name = "not1" -> v # 1
+    [] name = "not2" -> v # 2
+    [] name = "le3" -> v <= 3
+    [] name = "ge60" -> v >= 60
+    [] name = "nothing" -> FALSE
+\* the values of document d that source s yields (order kept)
+SVals(d, s) == SelectSeq(d[s.f], LAMBDA v : Flt(s.flt, v))
+SAll(D, s) == UNION {Range(SVals(D[i], s)) : i \in DOMAIN D}
+SSum(D, s) == SumOver(D, LAMBDA d : SeqSum(SVals(d, s)))
+SN(D, s) == SumOver(D, LAMBDA d : Len(SVals(d, s)))
+SMin(D, s) == CHOOSE x \in SAll(D, s) : \A y \in SAll(D, s) : x <= y
+SMax(D, s) == CHOOSE x \in SAll(D, s) : \A y \in SAll(D, s) : y <= x
+\* weight = FIRST value the weight source yields for the document, 1 if none (metric.go)
+SWeight(d, w) == IF SVals(d, w) = <<>> THEN 1 ELSE SVals(d, w)[1]
+SWSum(D, s, w) == SumOver(D, LAMBDA d : SeqSum(SVals(d, s)) * SWeight(d, w))
+SWTot(D, s, w) == SumOver(D, LAMBDA d : Len(SVals(d, s)) * SWeight(d, w))
+SCons(D, s, In(_)) ==
+  LET k(i) == Cardinality({j \in DOMAIN SVals(D[i], s) : In(SVals(D[i], s)[j])})
+      RECURSIVE g(_)
+      g(i) == IF i > Len(D) THEN <<>> ELSE [j \in 1..k(i) |-> D[i]] \o g(i + 1)
+  IN g(1)
+SSingle(D, s) == \A i \in DOMAIN D : Len(SVals(D[i], s)) <= 1
+
+\* Chk(a, r, D): the clauses that the reported result r of aggregation a violates over consumptions D
+RECURSIVE Chk(_, _, _)
+ChkSubs(a, rs, D) == UNION {Chk(a.sub[j].a, rs[j], D) : j \in DOMAIN a.sub}
+Chk(a, r, D) ==
+  CASE a.k = "count" -> IF r.v # Len(D) THEN {"C16_tree_count"} ELSE {}
+    [] a.k = "sum" -> IF r.v # SSum(D, a.src) THEN {"C16_tree_sum"} ELSE {}
+    [] a.k = "min" -> IF SAll(D, a.src) = {} THEN (IF r.none THEN {} ELSE {"C16_tree_min_of_nothing"})
+                      ELSE IF r.none \/ r.v # SMin(D, a.src) THEN {"C16_tree_min"} ELSE {}
+    [] a.k = "max" -> IF SAll(D, a.src) = {} THEN (IF r.none THEN {} ELSE {"C16_tree_max_of_nothing"})
+                      ELSE IF r.none \/ r.v # SMax(D, a.src) THEN {"C16_tree_max"} ELSE {}
+    [] a.k = "avg" -> IF SN(D, a.src) = 0 THEN (IF r.nan THEN {} ELSE {"C16_tree_avg_of_nothing"})
+                      ELSE IF r.nan \/ ~AvgOK(r.v1000, SSum(D, a.src), SN(D, a.src)) THEN {"C16_tree_avg"} ELSE {}
+    [] a.k = "wavg" -> IF SWTot(D, a.src, a.w) = 0 THEN (IF r.nan THEN {} ELSE {"C16_tree_weighted_avg_of_zero_weight"})
+                       ELSE IF r.nan \/ ~AvgOK(r.v1000, SWSum(D, a.src, a.w), SWTot(D, a.src, a.w)) THEN {"C16_tree_weighted_avg"} ELSE {}
+    [] a.k = "card" -> IF r.v # Cardinality(SAll(D, a.src)) THEN {"C16_tree_cardinality"} ELSE {}
+    [] a.k = "quant" ->
+         IF r.err THEN {}   \* an empty sketch has no quantiles
+         ELSE (IF SAll(D, a.src) = {} THEN {}
+               ELSE IF \E i \in DOMAIN r.q1000 : r.q1000[i] < SMin(D, a.src) * 1000 \/ r.q1000[i] > SMax(D, a.src) * 1000
+                    THEN {"C16_tree_quantile_outside_min_max"} ELSE {})
+              \cup (IF \E i \in DOMAIN r.q1000 : i > 1 /\ r.q1000[i] < r.q1000[i - 1] THEN {"C16_tree_quantiles_not_monotone"} ELSE {})
+    [] a.k = "terms" ->
+         LET B == r.buckets
+             allT == SAll(D, a.src)
+             ret == {B[i].term : i \in DOMAIN B}
+             bk(t) == SCons(D, a.src, LAMBDA v : v = t)
+         IN (IF \E i \in DOMAIN B : B[i].count # Len(bk(B[i].term)) THEN {"C16_tree_terms_bucket_count"} ELSE {})
+            \cup (IF Len(B) # (IF Cardinality(allT) < a.size THEN Cardinality(allT) ELSE a.size) \/ Cardinality(ret) # Len(B) \/ ~(ret \subseteq allT)
+                  THEN {"C16_tree_terms_wrong_buckets"} ELSE {})
+            \cup (IF \E t \in allT \ ret : \E i \in DOMAIN B : Len(bk(t)) > B[i].count THEN {"C16_tree_terms_not_the_largest"} ELSE {})
+            \cup (IF \E i \in DOMAIN B : i > 1 /\ B[i].count > B[i - 1].count THEN {"C16_tree_terms_order"} ELSE {})
+            \cup (IF SSingle(D, a.src) /\ r.other # Len(D) - SeqSum([i \in DOMAIN B |-> B[i].count]) THEN {"C16_tree_terms_remainder"} ELSE {})
+            \cup UNION {ChkSubs(a, B[i].sub, bk(B[i].term)) : i \in {j \in DOMAIN B : B[j].term \in allT}}
+    [] a.k \in {"ranges", "dranges"} ->
+         LET B == r.buckets
+             bk(i) == SCons(D, a.src, LAMBDA v : v >= a.bounds[i][1] /\ v < a.bounds[i][2])
+         IN (IF Len(B) # Len(a.bounds) THEN {"C16_tree_range_wrong_buckets"}
+             ELSE (IF \E i \in DOMAIN B : B[i].count # Len(bk(i)) THEN {"C16_tree_range_bucket_count"} ELSE {})
+                  \cup UNION {ChkSubs(a, B[i].sub, bk(i)) : i \in DOMAIN B})
+ChkRequest(req, res, D) == UNION {Chk(req[j].a, res[j], D) : j \in DOMAIN req}
 =============================================================================
